@@ -57,7 +57,7 @@ def gen_history(rnd, nact):
             acts.append(("check",))
         elif r < 0.46:
             # the developer touches or edits the configuration file (it is now newer than the lock), or restores old timestamps
-            acts.append(("touch", rnd.choice(["config_newer", "config_newer", "sources_newer", "all_old", "lock_old"])))
+            acts.append(("touch", rnd.choice(["config_newer", "config_newer", "sources_newer", "all_old", "lock_old", "lock_readonly", "lock_readonly"])))
         elif r < 0.62:
             acts.append(("edit", "normal", 0, None))
         elif r < 0.72:
@@ -146,6 +146,10 @@ def run_history(built, acts, structured, record=False):
                 stats["lock_symlink"] = 1
             elif kind == "touch":
                 now = time.time()
+                if a[1] == "lock_readonly":
+                    if os.path.exists(w.lockp) and not os.path.islink(w.lockp):
+                        os.chmod(w.lockp, 0o444)
+                    continue
                 tgt = {"config_newer": [(w.cfg, now + 5)], "lock_old": [(w.lockp, now - 86400)],
                        "sources_newer": [(os.path.join(w.box.proj, rel), now + 5) for rel in w.files],
                        "all_old": [(w.cfg, now - 9 * 86400), (w.lockp, now - 8 * 86400)] + [(os.path.join(w.box.proj, rel), now - 7 * 86400) for rel in w.files]}[a[1]]
@@ -229,8 +233,13 @@ def run_history(built, acts, structured, record=False):
                     k = min(max(1, k), K)
                     if how == "errno":
                         cand = [o["n"] for o in ops0 if o["n"] >= k and o["kind"] in ("openw", "write", "rename")]
+                        if not cand:
+                            cand = [o["n"] for o in ops0 if o["kind"] in ("openw", "write", "rename")][-1:]
+                        # the fault model is "an I/O failure while creating, writing or moving a file into place": when this run
+                        # performs no such operation (nothing to insert, range exhausted) it simply runs without a fault - an
+                        # error on *reading* the lock would make the tool fall back to scanning, which C16 allows and C02 does not cover
+                        rules = ("n=%d,act=errno:%d" % (cand[0], fault.ERRNO[arg])) if cand else None
                         k = cand[0] if cand else k
-                        rules = "n=%d,act=errno:%d" % (k, fault.ERRNO[arg])
                     elif how == "epipe":
                         cand = [o["n"] for o in ops0 if o["n"] >= k and o["kind"] == "stdio"] or [o["n"] for o in ops0 if o["kind"] == "stdio"][-1:]
                         k = cand[0] if cand else k
